@@ -1,19 +1,173 @@
 /-
   C01 — every decision is a complete, well-formed ranking.
+  One group of theorems per link constructor (`ranking`, `sequentialRanking`, `majorityRanking`,
+  `evaluateRanking`), each over arbitrary inputs of that constructor: the ids of the result are the
+  expected ids, every link names a ranked alternative, no entry links to itself, no link is repeated —
+  stated through the executable checker `Spec.C01.check` that the driver evaluates on Go's output.
+  All theorems are generic in the payload / number type; no arithmetic is used.
+  Helper lemmas: `Rdm/Lemmas/{LinksSpec,RankingBasic,RankingWellformed,LinksConstructors}.lean`.
 -/
 import Rdm.Model.Links
 import Rdm.Model.Ranking
 import Rdm.Spec.C01
+import Rdm.Lemmas.LinksSpec
+import Rdm.Lemmas.LinksSpecIff
+import Rdm.Lemmas.RankingBasic
+import Rdm.Lemmas.RankingWellformed
+import Rdm.Lemmas.LinksConstructors
+import Rdm.Lemmas.NumRat
 namespace Rdm.Props.C01
 open Rdm
+
+/-! ### the checker -/
+
+/-- `Spec.C01.check` (evaluated by the driver on Go's output) accepts exactly the rankings the property
+    describes: one entry per expected alternative and no other, every link names a ranked alternative,
+    no self-link, no repeated link -/
+theorem check_iff_wellformed (expected : List String) (out : List (String × List String)) :
+    Spec.C01.check expected out = true ↔
+      (out.map (·.1)).Perm expected ∧ (out.map (·.1)).Nodup ∧
+      ∀ e ∈ out, (∀ x ∈ e.2, x ∈ out.map (·.1)) ∧ e.1 ∉ e.2 ∧ e.2.Nodup :=
+  Spec.C01.check_iff expected out
+
+/-! ### utility ranking (`AlternativeResults.Ranking`) -/
 
 /-- the utility ranking has exactly the input's ids (as a multiset), for every number type -/
 theorem ranking_ids_perm {α : Type} [Num α] (l : List (Scored α)) :
     ((ranking l).map (·.id)).Perm (l.map (·.id)) := by
-  unfold ranking
-  simp only [List.map_map]
-  have h := List.mergeSort_perm (l.map fun s => ({ s with v := round8 s.v } : Scored α)) rankLe
-  have h2 := h.map (fun s : Scored α => s.id)
-  simpa [Function.comp_def] using h2
+  rw [ranking_eq, entriesOf_ids]
+  exact sorted_ids_perm l
+
+/-- the three link clauses for the utility ranking, for every number type whose `<` is irreflexive
+    (true of `Float` — `x < x` is false also for NaN — and of `Rat`): with distinct input ids every link
+    names an entry of the result, no entry links to itself, no link occurs twice -/
+theorem ranking_links_wellformed {α : Type} [Num α] (hirr : ∀ x : α, ¬ x < x) (l : List (Scored α))
+    (hnd : (l.map (·.id)).Nodup) :
+    ∀ e ∈ ranking l, (∀ x ∈ e.links, x ∈ (ranking l).map (·.id)) ∧ e.id ∉ e.links ∧ e.links.Nodup := by
+  rw [ranking_eq]
+  exact entriesOf_wellformed hirr _ ((sorted_ids_perm l).nodup_iff.mpr hnd)
+
+/-- C01 for the utility methods: the checker accepts `ranking l` against the input ids -/
+theorem ranking_wellformed {α : Type} [Num α] (hirr : ∀ x : α, ¬ x < x) (l : List (Scored α))
+    (hnd : (l.map (·.id)).Nodup) :
+    Spec.C01.check (l.map (·.id)) ((ranking l).map fun e => (e.id, e.links)) = true := by
+  have hids : ((ranking l).map fun e => (e.id, e.links)).map (·.1) = (ranking l).map (·.id) := by
+    simp [Function.comp_def]
+  apply Spec.C01.check_of_wellformed
+  · rw [hids]; exact ranking_ids_perm l
+  · rw [hids]; exact (ranking_ids_perm l).nodup_iff.mpr hnd
+  · intro e he
+    obtain ⟨r, hr, rfl⟩ := List.mem_map.mp he
+    rw [hids]
+    exact ranking_links_wellformed hirr l hnd r hr
+
+/-- … in particular over the rationals, without side condition on the number type -/
+theorem ranking_wellformed_rat (l : List (Scored Rat)) (hnd : (l.map (·.id)).Nodup) :
+    Spec.C01.check (l.map (·.id)) ((ranking l).map fun e => (e.id, e.links)) = true :=
+  ranking_wellformed (fun _ => Rat.lt_irrefl) l hnd
+
+example : Spec.C01.check ["a", "b", "c", "d"]
+    ((ranking [⟨"a", (1 : Rat)⟩, ⟨"b", 2⟩, ⟨"c", 1⟩, ⟨"d", 0⟩]).map fun e => (e.id, e.links)) = true :=
+  ranking_wellformed_rat _ (by decide)
+
+/-! ### sequential ranking (`PrepareSequentialRanking`: aspect elimination, satisfaction) -/
+
+/-- ids (and payloads) are preserved in order -/
+theorem sequential_ids {β : Type} (l : List (String × β)) :
+    (sequentialRanking l).map (·.id) = l.map (·.1) ∧ (sequentialRanking l).map (·.ev) = l.map (·.2) :=
+  ⟨sequentialRanking_ids l, sequentialRanking_evs l⟩
+
+/-- entry `i` links exactly to entry `i+1` (the last entry links to nothing) -/
+theorem sequential_links {β : Type} (l : List (String × β)) (i : Nat) (h : i < (sequentialRanking l).length) :
+    ((sequentialRanking l)[i]).links = ((l.map (·.1)).drop (i + 1)).take 1 :=
+  sequentialRanking_links l i h
+
+/-- C01 for the two threshold heuristics: with distinct ids the checker accepts the chain -/
+theorem sequential_wellformed {β : Type} (l : List (String × β)) (hnd : (l.map (·.1)).Nodup) :
+    Spec.C01.check (l.map (·.1)) ((sequentialRanking l).map fun e => (e.id, e.links)) = true := by
+  have hids : ((sequentialRanking l).map fun e => (e.id, e.links)).map (·.1) = l.map (·.1) := by
+    rw [← sequentialRanking_ids l]; simp [Function.comp_def]
+  apply Spec.C01.check_of_wellformed
+  · rw [hids]
+  · rw [hids]; exact hnd
+  · intro e he
+    obtain ⟨r, hr, rfl⟩ := List.mem_map.mp he
+    rw [hids]
+    exact sequentialRanking_wellformed l hnd r hr
+
+example : Spec.C01.check ["x", "y", "z"]
+    ((sequentialRanking [("x", 1), ("y", 2), ("z", 3)]).map fun e => (e.id, e.links)) = true :=
+  sequential_wellformed _ (by decide)
+
+/-! ### majority heuristic (`prepareRanking`) -/
+
+/-- ids: the drop-out groups flattened, in reverse (the last group dropped is the best) -/
+theorem majority_ids {β : Type} (gs : List (List (String × β))) :
+    (majorityRanking gs).map (·.id) = (gs.flatten.map (·.1)).reverse :=
+  majorityRanking_ids gs
+
+/-- links: the ranking is the reversal of the per-group blocks, group `k` being built against the ids of
+    group `k-1` (nothing for the first), and inside a block built against `worse` entry `i` links to
+    `worse ++ (its peers = the group's ids without position i)` -/
+theorem majority_links {β : Type} (gs : List (List (String × β))) :
+    majorityRanking gs
+      = ((List.zipWith groupEntries ([] :: gs.map (·.map (·.1))) gs).flatten).reverse ∧
+    ∀ (worse : List String) (g : List (String × β)) (i : Nat) (h : i < (groupEntries worse g).length),
+      (groupEntries worse g)[i] =
+        ⟨(g[i]'(by simpa [groupEntries] using h)).1, (g[i]'(by simpa [groupEntries] using h)).2,
+          worse ++ (g.map (·.1)).eraseIdx i⟩ :=
+  ⟨by rw [majorityRanking, majorityEntries_eq], groupEntries_getElem⟩
+
+/-- C01 for the majority heuristic: when every alternative is recorded in exactly one group, the checker
+    accepts the ranking (any tie-group shape, including a 3-way group followed by a 2-way group) -/
+theorem majority_wellformed {β : Type} (gs : List (List (String × β))) (hnd : (gs.flatten.map (·.1)).Nodup) :
+    Spec.C01.check (gs.flatten.map (·.1)) ((majorityRanking gs).map fun e => (e.id, e.links)) = true := by
+  have hids : ((majorityRanking gs).map fun e => (e.id, e.links)).map (·.1) = (majorityRanking gs).map (·.id) := by
+    simp [Function.comp_def]
+  apply Spec.C01.check_of_wellformed
+  · rw [hids, majorityRanking_ids]; exact List.reverse_perm _
+  · rw [hids, majorityRanking_ids]; exact (List.reverse_perm _).nodup_iff.mpr hnd
+  · intro e he
+    obtain ⟨r, hr, rfl⟩ := List.mem_map.mp he
+    rw [hids]
+    exact majorityRanking_wellformed gs hnd r hr
+
+example : Spec.C01.check ["a", "b", "c", "d", "e"]
+    ((majorityRanking [[("a", 0), ("b", 0), ("c", 0)], [("d", 1), ("e", 1)]]).map fun e => (e.id, e.links)) = true :=
+  majority_wellformed _ (by decide)
+
+/-! ### ELECTRE III (`EvaluateRanking`) -/
+
+/-- ids are preserved in order when the three lists have equal length -/
+theorem electre_ids (asc desc : List Int) (ids : List String)
+    (ha : asc.length = ids.length) (hd : desc.length = ids.length) :
+    (evaluateRanking asc desc ids).map (·.id) = ids :=
+  evaluateRanking_ids asc desc ids ha hd
+
+/-- for distinct ids: `b` is linked from `a` iff `b ≠ a` and `a` is not behind `b` in either distillation -/
+theorem electre_links (asc desc : List Int) (ids : List String)
+    (ha : asc.length = ids.length) (hd : desc.length = ids.length) (hnd : ids.Nodup)
+    (i j : Nat) (hi : i < ids.length) (hj : j < ids.length) :
+    ids[j] ∈ ((evaluateRanking asc desc ids)[i]'(by rw [evaluateRanking_length _ _ _ ha hd]; exact hi)).links ↔
+      j ≠ i ∧ asc[i] ≤ asc[j] ∧ desc[i] ≤ desc[j] :=
+  evaluateRanking_mem_links_nodup asc desc ids ha hd hnd i j hi hj
+
+/-- C01 for ELECTRE III: with distinct ids and index vectors of the right length the checker accepts -/
+theorem electre_wellformed (asc desc : List Int) (ids : List String)
+    (ha : asc.length = ids.length) (hd : desc.length = ids.length) (hnd : ids.Nodup) :
+    Spec.C01.check ids ((evaluateRanking asc desc ids).map fun e => (e.id, e.links)) = true := by
+  have hids : ((evaluateRanking asc desc ids).map fun e => (e.id, e.links)).map (·.1) = ids := by
+    simpa [Function.comp_def] using evaluateRanking_ids asc desc ids ha hd
+  apply Spec.C01.check_of_wellformed
+  · rw [hids]
+  · rw [hids]; exact hnd
+  · intro e he
+    obtain ⟨r, hr, rfl⟩ := List.mem_map.mp he
+    rw [hids]
+    exact evaluateRanking_wellformed asc desc ids ha hd hnd r hr
+
+example : Spec.C01.check ["a", "b", "c"]
+    ((evaluateRanking [0, 1, 1] [1, 0, 1] ["a", "b", "c"]).map fun e => (e.id, e.links)) = true :=
+  electre_wellformed _ _ _ rfl rfl (by decide)
 
 end Rdm.Props.C01
